@@ -9,7 +9,7 @@ RULE = ('merge/embed/mask/forwards/partial retrieval over the universe extended 
         'drawn per parameter from three-element pools (agreement and disagreement both frequent), coming from functions, classes, callable instances and plain inspect.Signature objects, and random expression '
         'trees; the monitor recomputes, for every result parameter, the input parameters it stands for (same name; for '
         'positional ones also the same index) and checks optionality, default, annotation, kind restriction, relative '
-        'order, outer-before-inner and the dropped-default rule. Defaults include values every function owns an equal copy of (a large int, a tuple); a keyword bound by a partial keeps the annotation of the parameter it names. Non-trivial: a merge parameter with >= 2 contributors, any '
+        'order, outer-before-inner and the dropped-default rule. Defaults include values every function owns an equal copy of (a large int, a tuple); a keyword bound by a partial keeps the annotation of the parameter it names. For inputs with as many named positional parameters as the result, a parameter may only be positional-only where some input requires it (kind restricted without need). Non-trivial: a merge parameter with >= 2 contributors, any '
         'embed result, a mask/partial that removed or rebound something; distinct by (operation, inputs with metadata).')
 ASSUMPTIONS = ["'the input parameters it stands for' is only defined when shared names keep their role; for other merges only order is checked",
                'forwards is covered through the embed and mask calls it makes (both monitored)']
